@@ -167,11 +167,11 @@ def _last_field(p):
     return None
 
 
-def aggregates(body, adt_pred, variant=None):
+def aggregates(body, adt_pred, variant=None, in_clone=False):
     """assignments constructing adt (optionally a given variant): (bi, si, stmt).
     A derived/implemented Clone::clone of the type itself re-creates a value that already exists: not a construction."""
     out = []
-    if body.name.endswith("std::clone::Clone>::clone"):
+    if body.name.endswith("std::clone::Clone>::clone") and not in_clone:
         return out
     for bi, si, s in body.assigns():
         rv = s["rv"]
